@@ -3,6 +3,7 @@ package c06
 
 import (
 	"context"
+	"errors"
 	"fmt"
 	"net"
 	"os"
@@ -15,6 +16,7 @@ import (
 	"pgregory.net/rapid"
 
 	gnet "github.com/panjf2000/gnet/v2"
+	errorx "github.com/panjf2000/gnet/v2/pkg/errors"
 	"github.com/panjf2000/gnet/v2/verifx/fx"
 	"github.com/panjf2000/gnet/v2/verifx/vstat"
 )
@@ -32,17 +34,19 @@ type caseSpec struct {
 	TickUs            int    // OnTick interval; TickBusyUs: time spent inside OnTick
 	TickBusyUs        int
 	DelayUs           int    // between activity start and the shutdown request
+	WakeCallback      bool   // Wake source: the request carries a callback (that returns nil)
 	Backlog           int    // async requests queued behind a busy loop right before the request (Wake/OnTick sources)
 	CloseSaysShutdown bool   // every OnClose returns Shutdown (also those invoked by the shutdown sweep itself)
 	ClosePartner      string // during the shutdown, an OnClose closes another open connection of its loop (EventLoop.Close), as a relay closes its partner: "", next (the one opened right after it), last
 }
 
 func (c caseSpec) String() string {
-	return fmt.Sprintf("cfg: %s\n source=%s idle=%d streams=%d pending=%d dialers=%d asyncers=%d tick=%dus busy=%dus delay=%dus backlog=%d onCloseReturnsShutdown=%v onCloseClosesPartner=%v",
-		c.Cfg, c.Source, c.Idle, c.Streams, c.Pending, c.Dialers, c.Asyncers, c.TickUs, c.TickBusyUs, c.DelayUs, c.Backlog, c.CloseSaysShutdown, c.ClosePartner)
+	return fmt.Sprintf("cfg: %s\n source=%s idle=%d streams=%d pending=%d dialers=%d asyncers=%d tick=%dus busy=%dus delay=%dus backlog=%d onCloseReturnsShutdown=%v onCloseClosesPartner=%v wakeWithCallback=%v",
+		c.Cfg, c.Source, c.Idle, c.Streams, c.Pending, c.Dialers, c.Asyncers, c.TickUs, c.TickBusyUs, c.DelayUs, c.Backlog, c.CloseSaysShutdown, c.ClosePartner, c.WakeCallback)
 }
 
 type session struct {
+	closeAnswers       int32 // OnClose calls that answered Shutdown because the case says so (a second, equally documented source)
 	nesting            map[gnet.EventLoop]int
 	cs                 caseSpec
 	e                  *fx.Engine
@@ -184,6 +188,7 @@ func (c *cstate) OnClose(gc gnet.Conn, err error) gnet.Action {
 		return gnet.Shutdown
 	}
 	if c.s.cs.CloseSaysShutdown && atomic.LoadInt32(&c.s.trigger) >= 1 {
+		atomic.AddInt32(&c.s.closeAnswers, 1)
 		return gnet.Shutdown // once the shutdown has been requested, every OnClose asks for it again
 	}
 	return gnet.None
@@ -417,7 +422,12 @@ func run(cs caseSpec) (fails, stalls []string, infra string, nt bool) {
 	case "Wake":
 		if target != nil && target.gc != nil {
 			s.wakeTarget = target
-			_ = target.gc.Wake(nil)
+			if cs.WakeCallback {
+				// what the callback returns says nothing about the Shutdown the woken OnTraffic answers
+				_ = target.gc.Wake(func(gnet.Conn, error) error { return nil })
+			} else {
+				_ = target.gc.Wake(nil)
+			}
 		}
 		close(stopRet)
 	case "OnClose":
@@ -525,7 +535,13 @@ func run(cs caseSpec) (fails, stalls []string, infra string, nt bool) {
 	}
 	if cs.Source == "engine.Stop" || cs.Source == "pkg.Stop" {
 		if stopErr != nil {
-			addF("VERIF-KEY:stop-error %s returned %v", cs.Source, stopErr)
+			// an OnClose that answers Shutdown is a source of its own: when it wins the race the engine
+			// may be down before Stop is called, and Stop then rightly reports the in-shutdown error
+			if errors.Is(stopErr, errorx.ErrEngineInShutdown) && atomic.LoadInt32(&s.closeAnswers) > 0 {
+				stopErr = nil
+			} else {
+				addF("VERIF-KEY:stop-error %s returned %v", cs.Source, stopErr)
+			}
 		}
 	}
 	time.Sleep(time.Duration(cs.TickBusyUs)*time.Microsecond + 15*time.Millisecond)
@@ -602,6 +618,9 @@ func drawCase(t *rapid.T) caseSpec {
 	cs.TickUs = rapid.SampledFrom([]int{200, 1000, 10000}).Draw(t, "tickUs")
 	cs.TickBusyUs = rapid.SampledFrom([]int{0, 0, 300, 3000}).Draw(t, "tickBusyUs")
 	cs.DelayUs = rapid.SampledFrom([]int{0, 100, 1000, 5000}).Draw(t, "delayUs")
+	if cs.Source == "Wake" {
+		cs.WakeCallback = rapid.Bool().Draw(t, "wakeCallback")
+	}
 	if (cs.Source == "Wake" || cs.Source == "OnTick") && rapid.IntRange(0, 2).Draw(t, "backlog") == 0 {
 		cs.Backlog = rapid.SampledFrom([]int{100, 1023, 1024, 1100, 1500}).Draw(t, "backlogN")
 		if cs.Idle == 0 {
